@@ -575,8 +575,8 @@ func init() {
 		}
 		// contract stub
 		xt, yt := p.term(a[0], types.Typ[types.Float64]), p.term(a[1], types.Typ[types.Float64])
-		r := p.newVar("mod", smt.FPSort)
 		C := p.C
+		r := C.Apply("fmod", smt.FPSort, xt, yt)
 		special := C.Or(C.Or(C.FpIsNaN(xt), C.FpIsNaN(yt)), C.Or(C.FpIsInf(xt), C.FpEq(yt, C.FP(0))))
 		yInf := C.FpIsInf(yt)
 		zero := C.FP(0)
@@ -1018,8 +1018,25 @@ func (p *Path) nativeMethod(fn *ssa.Function, args []Value) (Value, bool) {
 	if !allConcrete(args[1:]) {
 		if fn.String() == "(*regexp.Regexp).MatchString" {
 			// what a pattern matches is stdlib behaviour: nondeterministic stub
-			p.note("stub: regexp.MatchString(symbolic subject) = arbitrary bool")
-			return p.newVar("re", smt.BoolSort), true
+			// (an uninterpreted function of the pattern and the subject bytes,
+			// so that repeated evaluations agree)
+			p.note("stub: regexp.MatchString(symbolic subject) = uninterpreted function of (pattern, subject)")
+			re, _ := n.V.(*regexp.Regexp)
+			h := uint32(2166136261)
+			if re != nil {
+				for _, c := range []byte(re.String()) {
+					h = (h ^ uint32(c)) * 16777619
+				}
+			}
+			bs := strBytes(args[1])
+			ts := make([]*smt.Term, len(bs))
+			for i, b := range bs {
+				ts[i] = p.byteTerm(b)
+			}
+			if len(ts) == 0 {
+				return re.MatchString(""), true
+			}
+			return fromTerm(p.C.Apply(fmt.Sprintf("rematch_%x_%d", h, len(ts)), smt.BoolSort, ts...), types.Typ[types.Bool]), true
 		}
 		p.unsupported("symbolic argument to native method %s", fn)
 	}
